@@ -3,16 +3,24 @@
 package scen
 
 import (
+	"bytes"
+	"encoding/binary"
 	"fmt"
+	"io"
 	"math/rand"
+	"net"
+	"strings"
 	"sync"
 	"sync/atomic"
 	"time"
 
+	"github.com/datastax/go-cassandra-native-protocol/datatype"
+	"github.com/datastax/go-cassandra-native-protocol/frame"
 	"github.com/datastax/go-cassandra-native-protocol/message"
 	"github.com/datastax/go-cassandra-native-protocol/primitive"
 
 	"verif/fakecass"
+	"verif/mon"
 	"verif/px"
 	"verif/rawcql"
 )
@@ -155,5 +163,179 @@ func reprepareStorm(c *Ctx, idx int) {
 	}
 	if idx%8 == 0 {
 		r.Sample(scenario)
+	}
+}
+
+// slowReader is a client that pipelines n QUERYs (each answered with a row of padBytes) and a REGISTER, reads nothing for
+// `stall`, and then reads everything. It returns the number of frames per stream (stream -1 = events, returned apart),
+// whether the proxy closed the connection, and the tokens by stream.
+type slowReaderResult struct {
+	PerStream map[int16]int
+	Events    [][]byte // bodies of EVENT frames, in arrival order
+	Closed    bool     // the connection was closed by the proxy before everything was read
+	Sent      int
+	Quiet     bool // reading stopped because nothing arrived for the quiet period
+}
+
+func slowReaderRun(bed *px.Bed, n, padBytes int, stall time.Duration, register bool, duringStall func()) (*slowReaderResult, error) {
+	pad := make([]byte, padBytes)
+	for i := range pad {
+		pad[i] = 'p'
+	}
+	cols := []*message.ColumnMetadata{{Keyspace: "ks1", Table: "t", Name: "k", Type: datatype.Varchar}, {Keyspace: "ks1", Table: "t", Name: "pad", Type: datatype.Blob}}
+	bed.Cluster.SetScript(func(a *fakecass.Arrival) fakecass.Outcome {
+		if !strings.HasPrefix(a.Token, "T5107") {
+			return fakecass.Outcome{}
+		}
+		return fakecass.Outcome{Name: "Rows", Msg: &message.RowsResult{Metadata: &message.RowsMetadata{ColumnCount: 2, Columns: cols}, Data: []message.Row{{[]byte(a.Token), pad}}}}
+	})
+	nc, err := net.DialTimeout("tcp", bed.Addr, 5*time.Second)
+	if err != nil {
+		return nil, err
+	}
+	defer nc.Close()
+	enc := func(f *frame.Frame) []byte {
+		var buf bytes.Buffer
+		_ = frame.NewRawCodec().EncodeFrame(f, &buf)
+		return buf.Bytes()
+	}
+	if _, err := nc.Write(enc(frame.NewFrame(primitive.ProtocolVersion4, 0, &message.Startup{Options: map[string]string{"CQL_VERSION": "3.0.0"}}))); err != nil {
+		return nil, err
+	}
+	hdr := make([]byte, 9)
+	_ = nc.SetReadDeadline(time.Now().Add(10 * time.Second))
+	if _, err := io.ReadFull(nc, hdr); err != nil || hdr[4] != byte(primitive.OpCodeReady) {
+		return nil, fmt.Errorf("no READY: %v", err)
+	}
+	res := &slowReaderResult{PerStream: map[int16]int{}}
+	var sent int64
+	done := make(chan struct{})
+	go func() { // the writer: blocks when the proxy stops reading from this client, goes on when the reading starts
+		defer close(done)
+		if register {
+			if _, err := nc.Write(enc(frame.NewFrame(primitive.ProtocolVersion4, 30000, &message.Register{EventTypes: []primitive.EventType{primitive.EventTypeSchemaChange}}))); err != nil {
+				return
+			}
+		}
+		for i := 0; i < n; i++ {
+			q := fmt.Sprintf("SELECT * FROM ks1.t WHERE k = 'T5107%012x'", i)
+			f := frame.NewFrame(primitive.ProtocolVersion4, int16(i), &message.Query{Query: q, Options: &message.QueryOptions{Consistency: primitive.ConsistencyLevelOne}})
+			_ = nc.SetWriteDeadline(time.Now().Add(stall + 60*time.Second))
+			if _, err := nc.Write(enc(f)); err != nil {
+				return
+			}
+			atomic.AddInt64(&sent, 1)
+		}
+	}()
+	time.Sleep(stall / 2)
+	if duringStall != nil {
+		duringStall()
+	}
+	time.Sleep(stall - stall/2)
+	// now read: until every request sent so far is answered and the writer is done, the proxy closes, or nothing comes for 15 s
+	got := 0
+	for {
+		select {
+		case <-done:
+		default:
+		}
+		want := int(atomic.LoadInt64(&sent))
+		writerDone := false
+		select {
+		case <-done:
+			writerDone = true
+		default:
+		}
+		if writerDone && got >= want+map[bool]int{true: 1, false: 0}[register] {
+			// everything answered; linger briefly for duplicates
+			_ = nc.SetReadDeadline(time.Now().Add(300 * time.Millisecond))
+		} else {
+			_ = nc.SetReadDeadline(time.Now().Add(15 * time.Second))
+		}
+		if _, err := io.ReadFull(nc, hdr); err != nil {
+			if ne, ok := err.(net.Error); ok && ne.Timeout() {
+				res.Quiet = !(writerDone && got >= want)
+				break
+			}
+			res.Closed = true
+			break
+		}
+		blen := int(binary.BigEndian.Uint32(hdr[5:9]))
+		if blen < 0 || blen > 64<<20 || hdr[0]&0x80 == 0 {
+			return nil, fmt.Errorf("bytes that are not a response frame: %x", hdr)
+		}
+		body := make([]byte, blen)
+		_ = nc.SetReadDeadline(time.Now().Add(30 * time.Second))
+		if _, err := io.ReadFull(nc, body); err != nil {
+			res.Closed = true
+			break
+		}
+		st := int16(binary.BigEndian.Uint16(hdr[2:4]))
+		if primitive.OpCode(hdr[4]) == primitive.OpCodeEvent {
+			res.Events = append(res.Events, body)
+			continue
+		}
+		res.PerStream[st]++
+		got++
+	}
+	res.Sent = int(atomic.LoadInt64(&sent))
+	return res, nil
+}
+
+// slowReaderScenario (C01): every request of a client that reads late is still answered exactly once - unless the proxy
+// gives the client up and closes its connection, which ends the obligation.
+func slowReaderScenario(c *Ctx, idx int) {
+	r := c.R
+	n := 3000 + 500*(idx%3)
+	stall := time.Duration(c.Pick(7, 12)) * time.Second
+	scenario := map[string]interface{}{"kind": "slow-reader", "idx": idx, "n": n, "stall_s": int(stall / time.Second)}
+	c.Step("slow-reader idx=%d n=%d stall=%s", idx, n, stall)
+	bed, err := px.NewBed(px.BedConfig{Hosts: 1 + idx%2, NumConns: 1, Keyspaces: []string{"ks1"}})
+	if err != nil {
+		r.Inconc("slow-reader: cannot start bed: " + err.Error())
+		return
+	}
+	defer bed.Close()
+	bed.OnHook(nil)
+	res, err := slowReaderRun(bed, n, 16384, stall, false, nil)
+	if err != nil {
+		r.Inconc("slow-reader: " + err.Error())
+		return
+	}
+	r.Eval(res.Sent)
+	r.Obs("slow_reader_requests", res.Sent)
+	r.NonTrivial(fmt.Sprintf("slow-reader/n%d/stall%d/h%d", n, int(stall/time.Second), 1+idx%2))
+	if res.Closed {
+		r.Obs("slow_reader_connection_closed_by_proxy", 1)
+		return
+	}
+	missing, dup := 0, 0
+	firstMissing := -1
+	for i := 0; i < res.Sent; i++ {
+		switch k := res.PerStream[int16(i)]; {
+		case k == 0:
+			missing++
+			if firstMissing < 0 {
+				firstMissing = i
+			}
+		case k > 1:
+			dup++
+		}
+	}
+	if dup > 0 {
+		r.Violate(mon.Violation{Signature: "C01/extra-frame/slow-reader", Detail: fmt.Sprintf("a client pipelined %d requests, read nothing for %s and then read everything: %d streams were answered more than once", res.Sent, stall, dup), Scenario: scenario})
+	}
+	if missing > 0 {
+		// progress premise: the proxy serves another client meanwhile, and nothing more arrived for 15 s
+		other, oerr := bed.ReadyClient(primitive.ProtocolVersion4, "")
+		ok := oerr == nil && ProgressSteps(other, 50, 900)
+		if other != nil {
+			other.Close()
+		}
+		if !ok {
+			r.Inconc("slow-reader: requests unanswered, but another client is not served either")
+			return
+		}
+		r.Violate(mon.Violation{Signature: "C01/lost-reply/slow-reader", Detail: fmt.Sprintf("a client pipelined %d requests (16 KiB answers), read nothing for %s and then read everything: %d requests were never answered (first: stream %d) although the connection stayed open, every request was answered by the backend, nothing arrived for 15 s and another client completed 50 round trips", res.Sent, stall, missing, firstMissing), Scenario: scenario})
 	}
 }
